@@ -1,11 +1,13 @@
-use speedy::{Readable, Writable};
+use std::io;
+
+use speedy::{Context, Endianness, Readable, Writable, Writer};
 
 use crate::structure::locator::Locator;
 
 /// This message is sent from an RTPS Reader to an RTPS Writer.
 /// It contains explicit information on where to send a reply
 /// to the Submessages that follow it within the same message.
-#[derive(Debug, PartialEq, Eq, Clone, Readable, Writable)]
+#[derive(Debug, PartialEq, Eq, Clone)]
 pub struct InfoReply {
   /// Indicates an alternative set of unicast addresses that
   /// the Writer should use to reach the Readers when
@@ -18,4 +20,59 @@ pub struct InfoReply {
   ///
   /// Only present when the MulticastFlag is set.
   pub multicast_locator_list: Option<Vec<Locator>>,
+}
+
+impl InfoReply {
+  /// Parses the body of an INFO_REPLY submessage. The multicast locator list
+  /// follows the unicast one exactly when the MulticastFlag of the submessage
+  /// header is set; there is no marker for it in the body (RTPS spec v2.5
+  /// Section 9.4.5.9).
+  pub fn read_from_buffer_with_flag(
+    endianness: Endianness,
+    buffer: &[u8],
+    has_multicast_list: bool,
+  ) -> io::Result<Self> {
+    let (unicast_locator_list, used) = Self::read_locator_list(endianness, buffer)?;
+    let multicast_locator_list = if has_multicast_list {
+      Some(Self::read_locator_list(endianness, &buffer[used..])?.0)
+    } else {
+      None
+    };
+    Ok(Self {
+      unicast_locator_list,
+      multicast_locator_list,
+    })
+  }
+
+  // Returns the list and the number of bytes it occupied.
+  fn read_locator_list(endianness: Endianness, buffer: &[u8]) -> io::Result<(Vec<Locator>, usize)> {
+    // A list starts with the number of locators. Check that so many locators
+    // (24 bytes each) can be there, before the parser reserves memory for them.
+    let locator_count = match (endianness, buffer.get(0..4)) {
+      (Endianness::LittleEndian, Some(&[a, b, c, d])) => u32::from_le_bytes([a, b, c, d]),
+      (Endianness::BigEndian, Some(&[a, b, c, d])) => u32::from_be_bytes([a, b, c, d]),
+      _ => 0, // too short, parser will report
+    };
+    if 4 + 24 * u64::from(locator_count) > buffer.len() as u64 {
+      return Err(io::Error::new(
+        io::ErrorKind::InvalidInput,
+        format!(
+          "InfoReply declares {locator_count} locators, but has only {} bytes",
+          buffer.len()
+        ),
+      ));
+    }
+    let (list, used) = Vec::<Locator>::read_with_length_from_buffer_with_ctx(endianness, buffer);
+    Ok((list?, used))
+  }
+}
+
+impl<C: Context> Writable<C> for InfoReply {
+  fn write_to<T: ?Sized + Writer<C>>(&self, writer: &mut T) -> Result<(), C::Error> {
+    writer.write_value(&self.unicast_locator_list)?;
+    if let Some(multicast_locator_list) = &self.multicast_locator_list {
+      writer.write_value(multicast_locator_list)?;
+    }
+    Ok(())
+  }
 }
